@@ -60,14 +60,14 @@ Section Main.
     M_loc_to_iloc ceqb to_Z (mk_index l (Some m)) k = S_lookup ceqb l k.
   Proof.
     intros W F. unfold M_loc_to_iloc, S_lookup. cbn [ix_map].
-    rewrite (am_get_index C ceqb m (fst k) W), F. reflexivity.
+    rewrite (am_get_index C ceqb ceqb_spec m (fst k) W), F. reflexivity.
   Qed.
 
   Lemma M_contains_map l m k : amwf C m -> map fst m = l ->
     M_contains ceqb to_Z (mk_index l (Some m)) k = S_contains ceqb l k.
   Proof.
     intros W F. unfold M_contains, S_contains. cbn [ix_map].
-    rewrite (am_get_index C ceqb m (fst k) W), F, (index_of_memb C ceqb). reflexivity.
+    rewrite (am_get_index C ceqb ceqb_spec m (fst k) W), F, (index_of_memb C ceqb). reflexivity.
   Qed.
 
   (* whole-object refinement: Index(labels) observed through every reader equals the specification,
@@ -106,12 +106,10 @@ Section Main.
   Proof.
     intros E. pose proof (M_index_init_ok l ix E) as (ND & L & m & Hm & W & F).
     destruct ix as [l' om]. cbn in L, Hm. subst l' om.
-    split; [exact ND|]. split; [reflexivity|]. repeat split.
+    refine (conj ND (conj eq_refl (conj _ (conj _ (conj _ _))))).
     - intros i x t H. rewrite (M_lookup_map l m _ W F). apply S_lookup_nth; assumption.
-    - rewrite (M_lookup_map l m _ W F) in H. apply S_lookup_only in H. tauto.
-    - rewrite (M_lookup_map l m _ W F) in H. apply S_lookup_only in H. tauto.
-    - rewrite (M_contains_map l m _ W F). apply S_contains_iff.
-    - rewrite (M_contains_map l m _ W F). apply S_contains_iff.
+    - intros k z H. rewrite (M_lookup_map l m _ W F) in H. apply S_lookup_only in H. exact H.
+    - intros k. rewrite (M_contains_map l m _ W F). apply S_contains_iff.
     - intros k H. rewrite (M_lookup_map l m _ W F). apply S_lookup_absent. exact H.
   Qed.
 
@@ -132,7 +130,7 @@ Section Main.
     cbn in Hm. injection Hm as <-.
     assert (Q : forall k, match am_get ceqb m (fst k) with Some i => Ok i | None => Err "KeyError"%string end
                           = S_lookup ceqb l k).
-    { intros k. unfold S_lookup. rewrite (am_get_index C ceqb m (fst k) W), F. reflexivity. }
+    { intros k. unfold S_lookup. rewrite (am_get_index C ceqb ceqb_spec m (fst k) W), F. reflexivity. }
     unfold M_loc_to_iloc_slice, S_lookup_slice, loc_slice, opt_key_pos.
     destruct a as [ka|], b as [kb|]; rewrite ?Q; reflexivity.
   Qed.
